@@ -354,6 +354,8 @@ func mergeEnums(previousDefinition *ast.Definition, newDefinition *ast.Definitio
 	if len(previousDefinition.EnumValues) != len(newDefinition.EnumValues) {
 		return nil, fmt.Errorf("enum %s has an inconsistent definition in different services", newDefinition.Name)
 	}
+	// the merged values get a list of their own: the one we were given belongs to the schema of the service
+	prevCopy.EnumValues = append(ast.EnumValueList{}, previousDefinition.EnumValues...)
 	// a set of values
 	for ix, value := range prevCopy.EnumValues {
 		// look up the valuein the new definition
